@@ -174,3 +174,69 @@ Lemma pages_initial_lemma : forall sa ra Ka sb rb Kb,
 Proof.
   intros sa ra Ka sb rb Kb Ha Hb. split; [exists Ka|exists Kb]; (split; [assumption|left; split; [reflexivity|left; reflexivity]]).
 Qed.
+
+(* ------------------------------------------------------------------ the pieces, under the names the design uses *)
+(* Pages::flattenPagesTree from any cache state of a flat clean tree: no error, the same pages in the same order, the
+   position map becomes the inverse of the list, only repairs happen to the objects (pgx_sim) *)
+Lemma flatten_establishes_invariant_lemma : forall p K, pgx_st p K ->
+  exists p', pg_flatten p = (p', None) /\ pgx_flat p' K /\ pd_all p' = K /\ pgx_posinv p' K /\
+    pgx_sim (pd_store p) (pd_store p') /\ pd_root p' = pd_root p /\ pd_omap p' = pd_omap p /\ pd_reg p' = pd_reg p /\ pg_inv p'.
+Proof. exact pgx_flatten_st. Qed.
+
+(* a copy never disturbs the page tree of the destination ... *)
+Lemma copy_keeps_page_tree_lemma : forall src dst fid K, pgx_flat dst K -> pgx_flat (snd (fst (fst (pg_copied src dst fid)))) K.
+Proof. exact pgz_copied_dst_flat. Qed.
+
+(* ... and the source only through Pages::all() (any invariant of getAllPages is an invariant of copying FROM a document) *)
+Lemma copy_source_invariant_lemma : forall (P : pg_doc -> Prop), (forall p, P p -> P (fst (pg_all p))) ->
+  forall src dst fid, P src -> P (fst (fst (fst (pg_copied src dst fid)))).
+Proof. exact pgz_copied_src. Qed.
+
+(* what copyForeignObject returns: the renamed source value in a fresh (or placeholder) object, a stream, or the memoised
+   earlier copy untouched *)
+Lemma copy_result_lemma : forall src dst fid l,
+  pd_all src <> [] -> pg_omap_wf dst ->
+  let '(src', dst', e, r) := pg_copied src dst fid in
+  e = None -> r = PvRef l ->
+  (exists v, pg_lookup (pd_store src) fid = Some (PcObj v) /\ pg_lookup (pd_store dst') l = Some (PcObj (pg_rename (pd_store src) (pd_omap dst') v)) /\
+             (pg_lookup (pd_store dst) l = None \/ pg_is_null (pd_store dst) (PvRef l) = true)) \/
+  (exists d x k, pg_lookup (pd_store src) fid = Some (PcStream d x k)) \/
+  (pg_omap_find (pd_omap dst) fid = Some l /\ pg_lookup (pd_store dst') l = pg_lookup (pd_store dst) l /\ pg_lookup (pd_store dst) l <> None).
+Proof. exact pgz_copied_result. Qed.
+
+(* the multi-copy invariant in the key-wise form of Struct/PgxSpec.v, for sources whose stream dictionaries have distinct
+   keys (qpdf dictionaries are std::map) *)
+Lemma copy_iso_keywise_lemma : forall src dst,
+  (forall a d x k, pg_lookup (pd_store src) a = Some (PcStream d x k) -> NoDup (map fst d)) ->
+  pgx_copy_inv_w src dst -> pgx_copy_inv src dst.
+Proof. exact pgx_copy_inv_of_w. Qed.
+
+(* non-vacuity: the two-page document of the witnesses above, with the right /Count, is a valid start *)
+Lemma pgx_ex_flat : pgx_flat (pg_init_doc (pgx_wc_store 2) 1) [3; 4].
+Proof.
+  exists 2, [(pgk_Count, PvInt 2); (pgk_Kids, PvArr [PvRef 3; PvRef 4]); (pgk_Type, PvName pgk_Pages)].
+  repeat split; try reflexivity; try discriminate.
+  - simpl. intros [H|[H|[]]]; discriminate.
+  - simpl. intros [H|[H|[]]]; discriminate.
+  - repeat constructor; simpl; intuition discriminate.
+  - intros k [<-|[<-|[]]]; eexists; (split; [reflexivity|]); (split; [reflexivity|cbn; split; discriminate]).
+Qed.
+Lemma pages_example_start_lemma : pgx_W (pgx_wc_world 2).
+Proof. apply (pages_initial_lemma _ _ [3; 4] _ _ [3; 4]); exact pgx_ex_flat. Qed.
+
+(* ------------------------------------------------------------------ the specification's view of a flat tree *)
+Definition pgx_mk_obj (s : pg_store) (k : N) : option Z :=
+  match pg_lookup s k with Some (PcObj (PvDict dk)) => pgx_mk_of s dk | _ => None end.
+
+(* the independent specification function pgx_doc_leaves (ISO 32000-1 7.7.3: the leaves of the tree in order), which the
+   harness compares with the driver's raw walk of the real tree after every step, shows exactly the objects the theorems
+   above call the page list *)
+Lemma leaves_of_flat_tree_lemma : forall p K, pgx_flat p K -> pgx_doc_leaves p = Some (map (pgx_mk_obj (pd_store p)) K).
+Proof.
+  intros p K (pn & d & Hroot & Hpn & Hkids & _ & _ & _ & _ & _ & _ & Hleaf & _).
+  unfold pgx_doc_leaves. rewrite Hroot. change 42%nat with (S 41). cbn [pgx_leaves pg_rv]. rewrite Hpn, Hkids. cbn [pg_rv].
+  clear Hkids. induction K as [|k t IH]; [reflexivity|].
+  cbn [map fold_right]. rewrite IH by (intros x Hx; apply Hleaf; right; exact Hx).
+  destruct (Hleaf k (or_introl eq_refl)) as (dk & Ek & [Lk _]). cbn [pg_rv]. rewrite Ek, Lk. cbn [pg_is_null].
+  unfold pgx_mk_obj. rewrite Ek. reflexivity.
+Qed.
